@@ -722,6 +722,21 @@ func (w *World) OpenHandler(ctx context.Context, path string, flag int, perm os.
 	return of, nil
 }
 
+// killedReader makes a simulated command stop reading once its context is
+// cancelled, whatever it reads from: a real child process would have been
+// killed by DefaultExecHandler.
+type killedReader struct {
+	ctx context.Context
+	r   io.Reader
+}
+
+func (k killedReader) Read(b []byte) (int, error) {
+	if err := k.ctx.Err(); err != nil {
+		return 0, err
+	}
+	return k.r.Read(b)
+}
+
 // endless is a device that always has more data and knows no deadlines
 // (like /dev/zero, or a regular file that another process keeps appending
 // to): a read from it never blocks, so only the interpreter's own context
@@ -847,7 +862,7 @@ func (w *World) ExecHandler(ctx context.Context, args []string) error {
 					fmt.Fprintf(hc.Stderr, "cat: %v\n", err)
 					return interp.ExitStatus(1)
 				}
-				_, err = io.Copy(hc.Stdout, rd)
+				_, err = io.Copy(hc.Stdout, killedReader{ctx, rd})
 				rd.Close()
 				if err != nil {
 					return interp.ExitStatus(1)
@@ -859,7 +874,7 @@ func (w *World) ExecHandler(ctx context.Context, args []string) error {
 			return nil
 		}
 		done := killable(ctx, hc.Stdin)
-		_, err := io.Copy(hc.Stdout, hc.Stdin)
+		_, err := io.Copy(hc.Stdout, killedReader{ctx, hc.Stdin})
 		done()
 		if ctx.Err() != nil {
 			return ctx.Err() // killed
@@ -900,8 +915,9 @@ func (w *World) ExecHandler(ctx context.Context, args []string) error {
 		if hc.Stdin != nil {
 			done := killable(ctx, hc.Stdin)
 			var buf [64]byte
+			in := killedReader{ctx, hc.Stdin}
 			for {
-				k, err := hc.Stdin.Read(buf[:])
+				k, err := in.Read(buf[:])
 				n += k
 				if err != nil {
 					break
@@ -919,8 +935,9 @@ func (w *World) ExecHandler(ctx context.Context, args []string) error {
 			done := killable(ctx, hc.Stdin)
 			defer done()
 			var b [1]byte
+			in := killedReader{ctx, hc.Stdin}
 			for {
-				k, err := hc.Stdin.Read(b[:])
+				k, err := in.Read(b[:])
 				if k > 0 {
 					hc.Stdout.Write(b[:1])
 					if b[0] == '\n' {
